@@ -128,8 +128,13 @@ func (dist *GevDistribution) Pdf(r Scalar, x ConstScalar) error {
 }
 
 func (dist *GevDistribution) LogCdf(r Scalar, x ConstScalar) error {
-  if dist.Xi.GetFloat64()*(x.GetFloat64() - dist.Mu.GetFloat64())/dist.Sigma.GetFloat64() <= -1 {
-    r.SetFloat64(math.Inf(-1))
+  if (x.GetFloat64() - dist.Mu.GetFloat64())/dist.Sigma.GetFloat64()*dist.Xi.GetFloat64() + 1.0 <= 0 {
+    if dist.Xi.GetFloat64() < 0 {
+      // beyond the upper end point of the support: F(x) = 1
+      r.SetFloat64(0.0)
+    } else {
+      r.SetFloat64(math.Inf(-1))
+    }
     return nil
   }
   r.Set(x)
